@@ -158,7 +158,7 @@ func makeFailoverInst(variant int, syncRead bool) func() *raceInst {
 			f := cache.NewFailoverOf[any](cache.FailoverConfigOf[any]{
 				Backend: in.be.Raw().(cache.ReadWriter), SyncRead: syncRead, UpdateTTL: time.Millisecond, FailedUpdateTTL: time.Millisecond,
 			}.Use)
-			in.fe = foOfAny{f}
+			in.fe = foOfAny{f: f}
 		} else if variant == 2 {
 			f := cache.NewFailoverOf[string](cache.FailoverConfigOf[string]{
 				Backend: in.be.Raw().(*cache.ShardedMapOf[string]), SyncRead: syncRead, UpdateTTL: time.Millisecond, FailedUpdateTTL: time.Millisecond,
@@ -168,7 +168,7 @@ func makeFailoverInst(variant int, syncRead bool) func() *raceInst {
 			f := cache.NewFailover(cache.FailoverConfig{
 				Backend: in.be.Raw().(cache.ReadWriter), SyncRead: syncRead, UpdateTTL: time.Millisecond, FailedUpdateTTL: time.Millisecond,
 			}.Use)
-			in.fe = foPlain{f}
+			in.fe = foPlain{f: f}
 		}
 
 		beClose := in.close
